@@ -1,3 +1,185 @@
+/-
+  Props/C01.lean — C01: applying a step never yields a schema-invalid document.
+  `Valid S d` is the model of `Node.check()`: content automaton accepted at every node, every
+  child's marks allowed by its parent, every mark set canonical — recursively.
+  Helper lemmas: Proofs/ReplaceValid.lean, Proofs/StepValid.lean.
+-/
 import PM.Step
+import Proofs.ReplaceValid
+import Proofs.StepValid
 namespace PM.C01
+open PM
+
+def Valid (S : Schema) (d : Node) : Prop := S.checkNode d = true
+
+/-- adjacent text children may be merged without changing what the content automaton accepts:
+    from a state reached by a text child, a further text child loops.  (All bundled schemas and all
+    `text*` / `inline*` style expressions satisfy it; an expression such as
+    `(text (text image | image image))?` does not, and there a mark step that makes two text
+    children equal-marked merges them into content the parent rejects — also upstream.) -/
+def TextStable (S : Schema) : Prop :=
+  ∀ t q q1 q2, (S.dfa t).matchType q S.textTy = some q1 →
+    (S.dfa t).matchType q1 S.textTy = some q2 → q2 = q1
+
+/-- what "the step's payload is itself schema-valid" means, per step kind -/
+def PayloadValid (S : Schema) (doc : Node) : Step → Prop
+  | .replace _ _ sl _ => openValid S sl.openStart sl.openEnd sl.content = true
+  | .replaceAround _ _ gf gt sl insert _ =>
+    -- the slice with the gap content in place is a valid payload
+    ∀ gap ins, doc.slice gf gt = .ok gap → sl.insertAt S insert gap.content = .ok (some ins) →
+      openValid S ins.openStart ins.openEnd ins.content = true
+  | .addMark .. => TextStable S
+  | .removeMark .. => TextStable S
+  | _ => True
+
+/-- **replace step** -/
+theorem replaceStep_valid (S : Schema) (doc doc' : Node) (f t : Nat) (sl : Slice) (st : Bool)
+    (hd : Valid S doc) (hp : PayloadValid S doc (.replace f t sl st))
+    (h : S.apply (.replace f t sl st) doc = .ok doc') : Valid S doc' := by
+  simp only [PayloadValid] at hp
+  have key : ∀ d', S.fromReplace doc f t sl = .ok d' → Valid S d' :=
+    fun d' h' => replace_valid S doc d' f t sl hd hp h'
+  unfold Schema.apply at h
+  simp only at h
+  split at h
+  · split at h
+    · simp at h
+    · simp at h
+    · exact key _ h
+  · exact key _ h
+
+/-- **replace-around step** -/
+theorem replaceAround_valid (S : Schema) (doc doc' : Node) (f t gf gt : Nat) (sl : Slice)
+    (ins : Nat) (st : Bool) (hd : Valid S doc)
+    (hp : PayloadValid S doc (.replaceAround f t gf gt sl ins st))
+    (h : S.apply (.replaceAround f t gf gt sl ins st) doc = .ok doc') : Valid S doc' := by
+  simp only [PayloadValid] at hp
+  unfold Schema.apply at h
+  simp only at h
+  split at h
+  · simp at h
+  · split at h
+    · simp at h
+    · rename_i gap hgap
+      split at h
+      · simp at h
+      · split at h
+        · simp at h
+        · simp at h
+        · rename_i inserted hins
+          exact replace_valid S doc doc' f t inserted hd (hp gap inserted hgap hins) h
+
+/-- **add-mark step**: only inline atoms whose actual parent allows the mark type are marked, the
+    new mark sets are canonical (C14), the rebuilt range is re-validated by replace -/
+theorem addMark_valid (S : Schema) (doc doc' : Node) (f t : Nat) (m : Mark)
+    (hd : Valid S doc) (hp : PayloadValid S doc (.addMark f t m))
+    (h : S.apply (.addMark f t m) doc = .ok doc') : Valid S doc' := by
+  have hts : TextStableP S := hp
+  unfold Schema.apply at h
+  simp only at h
+  split at h
+  · simp at h
+  · rename_i old hold
+    split at h
+    · simp at h
+    · rename_i p hp'
+      exact replace_valid S doc doc' f t _ hd
+        (addMark_payload S hts m p _ _ _ (slice_openValid S doc f t old hd hold)) h
+
+/-- **remove-mark step** -/
+theorem removeMark_valid (S : Schema) (doc doc' : Node) (f t : Nat) (m : Mark)
+    (hd : Valid S doc) (hp : PayloadValid S doc (.removeMark f t m))
+    (h : S.apply (.removeMark f t m) doc = .ok doc') : Valid S doc' := by
+  have hts : TextStableP S := hp
+  unfold Schema.apply at h
+  simp only at h
+  split at h
+  · simp at h
+  · rename_i old hold
+    exact replace_valid S doc doc' f t _ hd
+      (removeMark_payload S hts m _ _ _ (slice_openValid S doc f t old hd hold)) h
+
+/-- **node-mark steps** -/
+theorem addNodeMark_valid (S : Schema) (doc doc' : Node) (pos : Nat) (m : Mark)
+    (hd : Valid S doc) (h : S.apply (.addNodeMark pos m) doc = .ok doc') : Valid S doc' := by
+  unfold Schema.apply at h
+  simp only at h
+  split at h
+  · simp at h
+  · simp at h
+  · rename_i n hn
+    split at h
+    · simp at h
+    · rename_i u hu
+      have hnv := nodeAtKids_valid S doc.kids pos n (checkNode_kids hd) hn
+      exact nodeStep_valid S doc doc' n u pos _ _ hd hn
+        (addToSet_canonical S m _ (Node.marks_canonical hnv)) hu h
+
+theorem removeNodeMark_valid (S : Schema) (doc doc' : Node) (pos : Nat) (m : Mark)
+    (hd : Valid S doc) (h : S.apply (.removeNodeMark pos m) doc = .ok doc') : Valid S doc' := by
+  unfold Schema.apply at h
+  simp only at h
+  split at h
+  · simp at h
+  · simp at h
+  · rename_i n hn
+    split at h
+    · simp at h
+    · rename_i u hu
+      have hnv := nodeAtKids_valid S doc.kids pos n (checkNode_kids hd) hn
+      exact nodeStep_valid S doc doc' n u pos _ _ hd hn
+        (removeFromSet_canonical S m _ (Node.marks_canonical hnv)) hu h
+
+/-- **attribute step** -/
+theorem attr_valid (S : Schema) (doc doc' : Node) (pos : Nat) (name value : String)
+    (hd : Valid S doc) (h : S.apply (.attr pos name value) doc = .ok doc') : Valid S doc' := by
+  unfold Schema.apply at h
+  simp only at h
+  split at h
+  · simp at h
+  · simp at h
+  · rename_i n hn
+    split at h
+    · simp at h
+    · rename_i u hu
+      have hnv := nodeAtKids_valid S doc.kids pos n (checkNode_kids hd) hn
+      exact nodeStep_valid S doc doc' n u pos _ _ hd hn (Node.marks_canonical hnv) hu h
+
+/-- **document-attribute step** -/
+theorem docAttr_valid (S : Schema) (doc doc' : Node) (name value : String)
+    (hd : Valid S doc) (h : S.apply (.docAttr name value) doc = .ok doc') : Valid S doc' := by
+  unfold Schema.apply at h
+  simp only at h
+  split at h
+  · rename_i t a m kids
+    cases hc : computeAttrs (S.nodeType t).attrs (a.filter (·.1 != name) ++ [(name, value)]) with
+    | error e => rw [hc] at h; simp [Except.map] at h
+    | ok a' =>
+      rw [hc] at h; simp [Except.map] at h; subst h
+      simp only [Valid, checkNode_elem, Bool.and_eq_true] at hd ⊢
+      exact ⟨⟨hd.1.1, setFrom_canonical S m hd.1.2⟩, hd.2⟩
+  · simp at h
+
+/-- **C01**: for every schema, every valid document and every step of any of the eight kinds with a
+    valid payload, whatever `apply` returns is a valid document (the other outcomes are a failed
+    result or a ValueError-class error, by the type of `Schema.apply`). -/
+theorem apply_valid (S : Schema) (st : Step) (doc doc' : Node)
+    (hd : Valid S doc) (hp : PayloadValid S doc st) (h : S.apply st doc = .ok doc') : Valid S doc' := by
+  cases st with
+  | replace f t sl s => exact replaceStep_valid S doc doc' f t sl s hd hp h
+  | replaceAround f t gf gt sl ins s => exact replaceAround_valid S doc doc' f t gf gt sl ins s hd hp h
+  | addMark f t m => exact addMark_valid S doc doc' f t m hd hp h
+  | removeMark f t m => exact removeMark_valid S doc doc' f t m hd hp h
+  | addNodeMark pos m => exact addNodeMark_valid S doc doc' pos m hd h
+  | removeNodeMark pos m => exact removeNodeMark_valid S doc doc' pos m hd h
+  | attr pos name value => exact attr_valid S doc doc' pos name value hd h
+  | docAttr name value => exact docAttr_valid S doc doc' name value hd h
+
+/-- a slice cut from a valid document is a valid payload (so the quantifier is inhabited by every
+    slice the correspondence run feeds to the model) -/
+theorem slice_payload_valid (S : Schema) (src : Node) (f t : Nat) (sl : Slice)
+    (hs : Valid S src) (h : src.slice f t = .ok sl) :
+    openValid S sl.openStart sl.openEnd sl.content = true := by
+  exact slice_openValid S src f t sl hs h
+
 end PM.C01
